@@ -28,8 +28,13 @@ def cmpfail_step(P, ks, a):
         op = (0, 1, 6)[common.choose(a['op'], 3)] if is_set else common.choose(a['op'], 5)
     else:
         op = common.choose(a['op'], nops)
-    with common.untraced():
-        _cmpfail_step(P, ks, a, op, a['f'])
+    # the class of the exception the failing comparison raises (solver-chosen where the obligation has the selector)
+    keys_mod.CTL['failcls'] = keys_mod.FAULTS[1 + common.choose(a['ec'], len(keys_mod.FAULTS) - 1)] if 'ec' in a else CmpError
+    try:
+        with common.untraced():
+            _cmpfail_step(P, ks, a, op, a['f'])
+    finally:
+        keys_mod.CTL['failcls'] = CmpError
 
 
 def contents(t, is_set):
@@ -87,7 +92,9 @@ def _inner(P, ks, a, op, f, kk, x, y):
                 try:
                     with keys_mod.live():
                         got = t.minKey(x)
-                except ValueError:
+                except ValueError as e_:
+                    if isinstance(e_, CmpError):
+                        raise
                     got = None
                 c = [k for k in m.keys() if not klt(k, x)]
                 ok = (got is None and not c) or (c and got is not None and keq(got, c[0]))
@@ -95,7 +102,9 @@ def _inner(P, ks, a, op, f, kk, x, y):
                 try:
                     with keys_mod.live():
                         got = t.maxKey(x)
-                except ValueError:
+                except ValueError as e_:
+                    if isinstance(e_, CmpError):
+                        raise
                     got = None
                 c = [k for k in m.keys() if not klt(x, k)]
                 ok = (got is None and not c) or (c and got is not None and keq(got, c[-1]))
